@@ -209,11 +209,12 @@ Fixpoint grun (st : gstate) (inss : list (wid -> Z)) : list (wid -> nat -> bool)
 
 (* ---- initial state of the synthesized block under the ORIGINAL testbench ---- *)
 
-(* reset value of synthesized register bit i of a register with reset value rv.
-   passes.synthesize builds `Register(name=..., bitwidth=1)`: the reset value is
-   dropped (defect F2).  When the fix lands (bit i of the reset value is
-   propagated) this becomes:  option_map (fun v => Z.testbit v (Z.of_nat i)) rv  *)
-Definition synth_reset (rv : option Z) (i : nat) : option bool := None.
+(* reset value of synthesized register bit i of a register with reset value rv:
+   passes.synthesize gives bit i of the reset value to the i-th 1-bit register
+   (`new_rval = (new_rval >> i) & 0x1`; None stays None).  [Defect F2, now
+   repaired, was `None` here: the reset value was dropped.] *)
+Definition synth_reset (rv : option Z) (i : nat) : option bool :=
+  option_map (fun v => Z.testbit v (Z.of_nat i)) rv.
 
 (* register_value_map translated through reg_map > reset value > default (0) *)
 Definition ginit_reg (regmap : list (Z * Z)) (r : wid) (i : nat) : bool :=
@@ -240,15 +241,28 @@ Definition ginit (regmap : list (Z * Z)) (memmap : list (Z * list (Z * Z))) : gs
 Inductive memref := MOrig (m : Z) | MCopy (m : Z) | MPost (m : Z).
 
 (* key under which synthesize files the new memory in PostSynthBlock.mem_map:
-   `out_mems` is filled by _get_new_block_mem_instance from block_in's nets, i.e.
-   keyed by the memories of the internal copy (defect F19).  When the fix lands
-   (keys composed back to the original MemBlocks) this becomes:  MOrig m  *)
-Definition mem_map_key (m : Z) : memref := MCopy m.
+   `{orig: out_mems[temp] for orig, temp in block_in.mem_map.items()}` -- the
+   ORIGINAL MemBlock.  [Defect F19, now repaired, was `MCopy m`: keyed by the
+   memories of the internal copy.] *)
+Definition mem_map_key (m : Z) : memref := MOrig m.
 
 Definition used_mems : list Z :=
   nodup Z.eq_dec (flat_map (fun n => match nop n with OpMemRd m | OpMemWr m => [m] | _ => [] end) (nets nl)).
 
 Definition mem_map : list (memref * memref) := map (fun m => (mem_map_key m, MPost m)) used_mems.
+
+Definition memref_eqb (a b : memref) : bool :=
+  match a, b with
+  | MOrig x, MOrig y | MCopy x, MCopy y | MPost x, MPost y => x =? y
+  | _, _ => false
+  end.
+
+(* Simulation._initialize: `mem = self.block.mem_map[mem]` (None = KeyError) *)
+Fixpoint mem_map_lookup (k : memref) (l : list (memref * memref)) : option memref :=
+  match l with
+  | [] => None
+  | (k', v) :: r => if memref_eqb k' k then Some v else mem_map_lookup k r
+  end.
 
 Definition is_io (x : wire) : bool := match wkind x with KInput | KOutput => true | _ => false end.
 Definition is_reg (x : wire) : bool := match wkind x with KReg _ => true | _ => false end.
